@@ -41,6 +41,11 @@ structure ThreadMon where
   nLists : Nat := 0
   nRelists : Nat := 0
   nIds : Nat := 0
+  /-- reservation flags as seen in the events, and per (thread, slot): probe steps made while the slot stayed free -/
+  taken : List Nat := []
+  probeFree : List (Nat × Nat × Nat) := []
+  nSlots : Nat := 0
+  maxProbeFree : Nat := 0
   maxLiveNodes : Nat := 0
   deriving Repr
 
@@ -69,8 +74,36 @@ def sortDescDedupSpec (l : List Nat) : List Nat := l.foldl (fun acc x => insDesc
 
 def distinctCount (l : List Nat) : Nat := (sortDescDedupSpec l).length
 
+/-- IDManager events: a thread that keeps probing while one and the same slot stays free is not making the
+    progress C14 promises -/
+def idEvent (s : ThreadMon) (tid : Nat) (op : String) (slot : Nat) (wr : Nat) : ThreadMon :=
+  let s := { s with nSlots := max s.nSlots (slot + 1) }
+  -- this thread made one more probe step: count it against every slot that is free right now
+  let s := if op == "load" || op == "xchg" then
+      let freeSlots := (List.range s.nSlots).filter fun i => !s.taken.contains i
+      let upd : List (Nat × Nat × Nat) := freeSlots.map fun i =>
+        let old : Nat := ((s.probeFree.find? fun p => p.1 == tid && p.2.1 == i).map (·.2.2)).getD 0
+        (tid, i, old + 1)
+      let rest := s.probeFree.filter fun p => !(p.1 == tid && freeSlots.contains p.2.1)
+      let worst : Nat := upd.foldl (fun (m : Nat) (p : Nat × Nat × Nat) => max m p.2.2) 0
+      let s := { s with probeFree := rest ++ upd, maxProbeFree := max s.maxProbeFree worst }
+      if worst > 4 * s.nSlots + 4 then
+        s.flag s!"idleak: thread {tid} is still probing after {worst} steps although an ID has been free all that time"
+      else s
+    else s
+  if op == "xchg" && wr == 1 then
+    { s with taken := if s.taken.contains slot then s.taken else slot :: s.taken,
+             probeFree := s.probeFree.filter fun p => p.2.1 != slot }
+  else if op == "store" && wr == 0 then { s with taken := s.taken.filter (· != slot) }
+  else s
+
 /-- atomic / pseudo events of the trace -/
 def threadEvent (s : ThreadMon) (tid : Nat) (op loc : String) (rd wr : Nat) : ThreadMon :=
+  if loc.startsWith "I" then
+    match (loc.drop 1).toString.toNat? with
+    | some slot => idEvent s tid op slot wr
+    | none => s
+  else
   if op == "store" && loc == "G" then { s with g := wr, scanned := [], fwdCur := none }
   else if op == "load" && loc == "G" && s.inFwd && s.coord == some tid then { s with fwdCur := some rd, scanned := [] }
   else if op == "hb.expired" && s.inFwd && s.coord == some tid then
@@ -143,7 +176,7 @@ def threadResOp (seq : Bool) (tid : Nat) (s : ThreadMon) (opName : String) (var 
   let _ := seq
   if opName == "gid" then
     match res.toNat? with
-    | some _ => { s with nIds := s.nIds + 1 }
+    | some _ => { s with nIds := s.nIds + 1, probeFree := s.probeFree.filter fun p => p.1 != tid }
     | none => s.flag s!"malformed gid result {res}"
   else if opName == "hbget" then
     if res == "0" then s else s.flag "heartbeat: expired while its thread is still running"
